@@ -360,6 +360,7 @@ func tableSequence(o *Out, r *rand.Rand, seqNo, nOps int) {
 			}
 			tab.VerifRevalRun(clock.Now())
 			var started []string
+			var fresh []pending
 			// every request that was started is in activeReq; wait for exactly those answers
 			want := len(tab.VerifSnapshot().ActiveReq) - len(pend)
 			for w := 0; w < want; w++ {
@@ -373,8 +374,13 @@ func tableSequence(o *Out, r *rand.Rand, seqNo, nOps int) {
 				if resp.NewRecord() != nil {
 					nk = newK[idx]
 				}
-				pend = append(pend, pending{resp, idx, nk})
-				started = append(started, "i"+strconv.Itoa(idx))
+				fresh = append(fresh, pending{resp, idx, nk})
+			}
+			// the two requests of one run answer in either order: canonicalise
+			sort.Slice(fresh, func(a, b int) bool { return fresh[a].idIdx < fresh[b].idIdx })
+			for _, f := range fresh {
+				pend = append(pend, f)
+				started = append(started, "i"+strconv.Itoa(f.idIdx))
 			}
 			snap, _ := ts.snapshot()
 			o.Case("revalstart "+strings.Join(append([]string{"ids=-"}, started...), ","), snap)
